@@ -174,6 +174,17 @@ func cases() []cse {
 			out = append(out, cse{props, []string{p}, false})
 		}
 	}
+	// wide objects (13, 20 and 40 properties): the unlisted names still come out ascending
+	for _, n := range []int{13, 20, 40} {
+		var props []string
+		for i := 0; i < n; i++ {
+			props = append(props, fmt.Sprintf("p%02d", (i*7)%n))
+		}
+		sorted := slices.Clone(props)
+		slices.Sort(sorted)
+		out = append(out, cse{props, nil, false}, cse{props, []string{sorted[n-1]}, false}, cse{props, []string{sorted[n/2], sorted[1]}, false}, cse{props, []string{sorted[0]}, false},
+			cse{props, []string{sorted[n-1], "zz", sorted[0], sorted[n/2]}, false}, cse{props, []string{sorted[3], sorted[3]}, true}, cse{props, slices.Clone(sorted[n-5:]), false})
+	}
 	out = append(out, cse{nil, []string{"a", "a"}, true}, cse{[]string{}, []string{"a", "a"}, true}, cse{nil, []string{"a", "b", "a"}, true}, cse{nil, []string{"a", "b"}, false}, cse{[]string{}, []string{"zz"}, false})
 	return out
 }
